@@ -104,6 +104,7 @@ type Options struct {
 	CaseLimit   map[string]int
 	StubStr     []string
 	StubZero    []string
+	Transparent []string // packages taken off the default opaque list for this run
 	WasmFiles   map[string]string
 }
 
@@ -128,6 +129,9 @@ func newWorker(prog *ssa.Program, opts Options, harnessPkgs []string) (*worker, 
 	}
 	m.Trace = opts.Trace
 	m.WasmFiles = opts.WasmFiles
+	for _, name := range opts.Transparent {
+		delete(m.opaque, name)
+	}
 	for _, name := range opts.StubZero {
 		name := name
 		m.intr[name] = func(m *Machine, fr *frame, a []Value) Value {
@@ -382,6 +386,14 @@ func (w *worker) runPath(ex *Explorer, fn *ssa.Function, prefix []Decision) {
 				case "done":
 					p.outcome = "assert-cut"
 					completed = true
+				case "hang":
+					p.outcome = "hang"
+					completed = true
+					if p.ensureModel() {
+						p.recordCex("terminates-within-step-budget", p.model, r.reason)
+					} else {
+						ex.Incomplete = append(ex.Incomplete, "no model for the path that exceeded the termination budget")
+					}
 				case "unsupported":
 					ex.Incomplete = append(ex.Incomplete, "unsupported: "+r.reason)
 				default:
@@ -411,7 +423,7 @@ func (w *worker) runPath(ex *Explorer, fn *ssa.Function, prefix []Decision) {
 	ex.Decisions += p.nDec
 	if completed {
 		ex.PathsDone++
-		if len(ex.Samples) < w.opts.MaxSamples && p.outcome != "assert-cut" {
+		if len(ex.Samples) < w.opts.MaxSamples && p.outcome != "assert-cut" && p.outcome != "hang" {
 			if p.ensureModel() {
 				s := PathSample{Path: p.id, Inputs: p.inputsOf(p.model), Observe: map[string]string{}, Outcome: p.outcome}
 				okAll := true
